@@ -162,6 +162,14 @@ def expected(case, meta):
 
 # ---------------------------------------------------------------- implementation
 
+def build_pair(case):
+    """the two fieldcompare objects of a case (phase-6 directed cases carry construction options under "p6g")"""
+    if case.get("p6g"):
+        from fcv import c17_batches_p6g as p6g
+        return p6g.build(case)
+    return to_fc(case["source"]), to_fc(case["reference"])
+
+
 def run_impl(case):
     from fieldcompare.mesh import MeshFieldsComparator
     from fieldcompare.predicates import DefaultEquality
@@ -169,20 +177,36 @@ def run_impl(case):
         warnings.simplefilter("ignore")
         with np.errstate(all="ignore"):
             try:
-                s, r = to_fc(case["source"]), to_fc(case["reference"])
+                opt = case.get("p6g") or {}
+                s, r = build_pair(case)
                 tol = (min(s.domain.relative_tolerance, r.domain.relative_tolerance),
                        min(s.domain.absolute_tolerance, r.domain.absolute_tolerance))
                 dom0 = bool(s.domain.equals(r.domain))
                 cmp = MeshFieldsComparator(s, r, disable_space_dimension_matching=case["disable"],
-                                           disable_mesh_reordering=case["noreorder"])
+                                           disable_mesh_reordering=case["noreorder"],
+                                           disable_orphan_point_removal=bool(opt.get("keep_orphans")))
                 sel = None
                 if case["pred"][0] == "num":
                     rt, at = case["pred"][1], case["pred"][2]
                     sel = lambda *_a, **_k: DefaultEquality(rel_tol=rt, abs_tol=at)  # noqa: E731
                 suite = cmp(predicate_selector=sel, fieldcomp_callback=lambda c: None)
-                return ("T" if suite else "F"), dom0, tol
+                verdict = "T" if suite else "F"
+                if opt.get("rerun"):
+                    # the SAME comparator object asked again (it replaces its operands by extended / sorted views during a
+                    # call): the pair is still the pair the property speaks about
+                    again = "T" if cmp(predicate_selector=sel, fieldcomp_callback=lambda c: None) else "F"
+                    if again != verdict:
+                        verdict = f"X:first-call={verdict},second-call={again}"
+                return verdict, dom0, tol
             except Exception as e:  # noqa: BLE001
                 return f"E:{type(e).__name__}", None, None
+
+
+def model_applicable(case):
+    if case.get("p6g"):
+        from fcv import c17_batches_p6g as p6g
+        return p6g.model_applicable(case)
+    return True
 
 
 def enc_case(case, tol):
@@ -199,10 +223,10 @@ def evaluate(ctx, items):
     for i, (case, meta, tags) in enumerate(items):
         impl, dom0, tol = run_impl(case)
         impls.append((impl, dom0, tol))
-        if ctx.driver_ok and case["noreorder"]:
+        if ctx.driver_ok and case["noreorder"] and model_applicable(case):
             if tol is None:     # raised: tolerances are still needed by the model
                 try:
-                    s, r = to_fc(case["source"]), to_fc(case["reference"])
+                    s, r = build_pair(case)
                     tol = (min(s.domain.relative_tolerance, r.domain.relative_tolerance),
                            min(s.domain.absolute_tolerance, r.domain.absolute_tolerance))
                 except Exception:  # noqa: BLE001
@@ -255,6 +279,22 @@ def evaluate(ctx, items):
                 if rep["spec"] != "-" and want is not None and rep["spec"] != want:
                     ctx.inconsistent(case, "lean-spec=" + rep["spec"], "python-expectation=" + want); problems += 1
     return problems
+
+
+# ---------------------------------------------------------------- phase 6 (package G): directed batches
+
+def p6g_batch(ctx):
+    """dimensions of the quantifier that `gen_case` samples at one point only: user-set mesh tolerances, > 1000 points with
+    the extra entry first / middle / last, narrow / unsigned / float32 dtypes, memory layouts, transformed views as inputs,
+    the same comparator asked twice, orphan-point removal disabled, -0.0 / huge extras, odd field names, a pixel + quad +
+    triangle mesh with orphans at the front (see fcv/c17_batches_p6g.py).  Evaluated by the same rules as the random cases."""
+    from fcv import c17_batches_p6g as p6g
+    import sys
+    items = p6g.gen_batch(ctx.rng, sys.modules[__name__], c08, ctx.scale(1, 12))
+    CH = 60
+    for i in range(0, len(items), CH):
+        evaluate(ctx, items[i:i + CH])
+    ctx.extra["p6g_batch"] = {"cases": len(items)}
 
 
 # ---------------------------------------------------------------- scalar kernel 0 vs z
@@ -500,6 +540,7 @@ def run(ctx):
     CH = 400
     for i in range(0, len(items), CH):
         evaluate(ctx, items[i:i + CH])
+    p6g_batch(ctx)
     zero_cases(ctx)
     cli_flag(ctx)
     cli_batch(ctx)
